@@ -9,6 +9,7 @@ import (
 	"sync/atomic"
 
 	"verif/internal/core"
+	"verif/internal/oracle/htmltok"
 	"verif/internal/tmplx"
 	"verif/policy"
 )
@@ -155,6 +156,9 @@ func c03ReplayCase(in c03Replay) (bool, string) {
 	rp := execOne(p2, in.Contents, false)
 	msg := fmt.Sprintf("program %q: %s(ptr level %d) %q -> %v %q %v; plain string -> %v %q %v", in.Program, in.Type, in.Ptr, in.Contents, rt.Kind, rt.Out, rt.Err, rp.Kind, rp.Out, rp.Err)
 	switch in.Clause {
+	case "typed-value-verbatim-outside-own-context":
+		where, own, found := c03Locate(rt.Out, in.Contents, in.Type)
+		return found && !own, msg + "; marker located in " + where
 	case "attr-not-escaped":
 		p3, _ := tmplx.Prepare(in.Program)
 		_, ri, ok := p3.FindInert(1, tmplx.Data{})
@@ -255,13 +259,91 @@ func checkC03(r *core.Run) {
 			}
 		}
 	})
+	// Part B: program families where analyser and tokenizer may disagree about the context (raw-text end tags,
+	// tag syntax variants): a typed value's contents may appear verbatim only where the tokenizer is in that
+	// type's own context.
+	var progB, execB int64
+	typedMarker := "zTz<\"'>"
+	visitB := func(n *tmplx.Node) bool {
+		atomic.AddInt64(&progB, 1)
+		p, _ := tmplx.Prepare(n.Text)
+		if p == nil {
+			return false
+		}
+		probe := tmplx.Data{}
+		for k := 0; k < n.Slots; k++ {
+			probe.Set(k, tmplx.Inert)
+		}
+		pr := p.Exec(&probe)
+		if pr.Kind == tmplx.Rejected {
+			return c01Infectious(pr.Err)
+		}
+		if pr.Kind == tmplx.RejectedEnd || pr.Kind == tmplx.OtherError || pr.Kind == tmplx.Panicked {
+			return false
+		}
+		_, ri, okInert := p.FindInert(n.Slots, tmplx.Data{})
+		if !okInert {
+			ri.Out = ""
+		}
+		for k := 0; k < n.Slots; k++ {
+			for _, t := range safeTypes {
+				d, _, ok := p.FindInert(n.Slots, tmplx.Data{})
+				if !ok {
+					d = probe
+				}
+				d.Set(k, t.mk(typedMarker))
+				res := p.Exec(&d)
+				atomic.AddInt64(&execB, 1)
+				if res.Kind != tmplx.OK {
+					continue
+				}
+				where, own, found := c03Locate(res.Out, typedMarker, t.name)
+				if !found {
+					continue
+				}
+				if !own {
+					in := c03Replay{Program: n.Text, Type: t.name, Contents: typedMarker, Clause: "typed-value-verbatim-outside-own-context"}
+					r.Witness("typed-value-verbatim-outside-own-context", t.name+" in "+where, n.Raw,
+						fmt.Sprintf("program %s: %s value %s appears verbatim in %s of the output %s", core.Q(n.Raw), t.name, core.Q(typedMarker), where, core.Q(res.Out)), in)
+				}
+			}
+		}
+		return false
+	}
+	for _, fam := range c01Families() {
+		if fam.name != "raw" && fam.name != "tag" && fam.name != "cmt" {
+			continue
+		}
+		depth := 3
+		if r.Thorough() {
+			depth = 4
+		}
+		ex := &tmplx.Explorer{Alpha: fam.alpha, MaxDepth: depth, SoftDepth: 0, Expired: r.Expired}
+		ex.Visit = func(n *tmplx.Node, underPruned bool) bool { return visitB(n) }
+		ex.Run()
+		r.Add("states", ex.States)
+		r.Add("transitions", ex.Transitions)
+	}
+	for _, pf := range c01ProductFamilies(false) {
+		if !strings.HasPrefix(pf.name, "rawend-") {
+			continue
+		}
+		nprog := tmplx.Product(pf.parts, func(raw string) {
+			if nd := tmplx.NodeFromRaw(raw, 9); nd != nil && !r.Expired() {
+				visitB(nd)
+			}
+		})
+		r.Add("states", nprog)
+		r.Add("transitions", nprog)
+	}
+	r.Set("part_b", fmt.Sprintf("typed values in %d programs of the raw/tag/cmt fragment families and raw-text end-tag products: %d executions; contents may appear verbatim only where the tokenizer is in the type's own context", progB, execB))
 	if r.Expired() {
 		r.NotExhaustive("internal deadline reached")
 	}
 	var nclasses int64
 	classes.Range(func(_, _ interface{}) bool { nclasses++; return true })
-	r.Set("states", cells)
-	r.Set("transitions", execs)
+	r.Add("states", cells)
+	r.Add("transitions", execs)
 	r.Set("traces_validated_against_impl", cells)
 	r.Set("cells", fmt.Sprintf("%d elements x (%d attributes x 2 quotings%s + element content) + link rel cells = %d programs, %d accepted", len(elements), len(attrs), map[bool]string{true: " x {no prefix, static prefix}", false: ""}[r.Thorough()], cells, accepted))
 	r.Set("executions", execs)
@@ -275,4 +357,50 @@ func checkC03(r *core.Run) {
 	if nclasses < 5 && accepted > 0 {
 		r.HarnessError("vacuous: only %d (type, context) pairs received special treatment", nclasses)
 	}
+}
+
+// c03Locate finds where marker appears verbatim in out according to the tokenizer and whether that is a
+// context the type's contract covers.
+func c03Locate(out, marker, typ string) (where string, own, found bool) {
+	off := strings.Index(out, marker)
+	if off < 0 {
+		return "", false, false
+	}
+	tok := tmplx.Tokenize(out, false)
+	where = "outside any token"
+	last := ""
+	for _, tk := range tok.Tokens {
+		if tk.Type == htmltok.StartTag {
+			last = tk.Name
+		}
+		if off >= tk.Start && off < tk.End {
+			switch tk.Type {
+			case htmltok.Text:
+				where = "text in " + tk.Mode + " mode"
+				switch {
+				case tk.Mode == "data":
+					own = typ == "HTML"
+				case tk.Mode == "script":
+					own = typ == "Script"
+					where += " (script)"
+				case tk.Mode == "rawtext" && last == "style":
+					own = typ == "StyleSheet"
+					where += " (style)"
+				case tk.Mode == "rawtext" && (last == "iframe" || last == "noscript"):
+					own = typ == "HTML" // fallback content, HTML context under the reviewed policy
+				}
+			case htmltok.Comment:
+				where = "a comment"
+			case htmltok.Doctype:
+				where = "a DOCTYPE"
+			default:
+				where = "a tag"
+			}
+		}
+	}
+	if where == "outside any token" {
+		where = "an unfinished construct (" + tok.Final.String() + ")"
+		own = tok.Final == htmltok.Data && typ == "HTML"
+	}
+	return where, own, true
 }
